@@ -129,6 +129,9 @@ pub fn run(rec: &mut Recorder, w: &mut World, tier: &str, seed: u64) {
         if new_enforcer(rec, w, &m, "memory", &shadow, "", false) != "ok" { continue; }
         let mut descr = vec![format!("start {} with {:?}", k.name, shadow)];
         rec.exec(w, "e.keeprm");
+        // half of the time the automatic link building is off: links are then built by an explicit call at the end
+        let manual = rng.chance(1, 2);
+        if manual { rec.exec(w, "e.auto\tbuild\tfalse"); descr.push("enable_auto_build_role_links(false)".into()); }
         descr.push(format!("keep handle; set_role_manager(fresh) -> {}", rec.exec(w, "e.setrm")));
         for _ in 0..1 + rng.below(3) {
             let gi = rng.below(k.g.len());
@@ -139,7 +142,8 @@ pub fn run(rec: &mut Recorder, w: &mut World, tier: &str, seed: u64) {
             if out == "true" { if matches!(op, MOp::Rm(..)) { shadow.retain(|x| *x != l); } else if !shadow.contains(&l) { shadow.push(l.clone()); } }
             descr.push(format!("{} -> {}", op.line().replace('\t', " "), out));
         }
-        descr.push(format!("set_role_manager(kept handle) -> {}", rec.exec(w, "e.setrm\tkept")));
+        if !manual || rng.chance(1, 2) { descr.push(format!("set_role_manager(kept handle) -> {}", rec.exec(w, "e.setrm\tkept"))); }
+        if manual { descr.push(format!("build_role_links -> {}", rec.exec(w, "e.build"))); }
         compare(rec, w, k, &shadow, None, &descr, "kept-role-manager-handed-back");
         rec.nontrivial_case(&descr.join("|"));
     } }
